@@ -34,7 +34,7 @@ def norm_gamma(g: dict) -> dict:
     d = {"strategy": "plain", "L": 1, "nrow": 6, "header": "explicit", "footnote": None, "source": None,
          "new_page": False, "pageby_row": "column", "pageby_header": True, "place": ["all", "last", "last"],
          "font": 1, "size": 9, "inner_repeat": True, "heights": [1, 2, 3], "group_cols_reversed": False, "recur": False,
-         "numeric_groups": False, "dup_narrow": False, "padded": False, "nulls": False, "other_col_size": None, "group_by_lines": None, "nan_groups": False, "indent_wrap": None}
+         "numeric_groups": False, "dup_narrow": False, "padded": False, "nulls": False, "other_col_size": None, "group_by_lines": None, "nan_groups": False, "indent_wrap": None, "key_not_first": False}
     d.update(g)
     if d["strategy"] == "plain":
         d["L"] = 0
@@ -170,11 +170,15 @@ def spec_of(gamma: dict, hist) -> dict:
         if g.get("group_cols_reversed") and g["L"] >= 2:
             # the page_by columns sit in the DataFrame in the opposite order of the page_by list, after the data columns
             spec["colorder"] = ["c0"] + [f"g{l}" for l in reversed(range(g["L"]))] + ["c1"]
-    elif strat == "group_by":
+    if g.get("key_not_first") and g["L"] == 1 and strat in ("page_by", "subline"):
+        # the consumed key column is not a leading column of the frame (tall column first, key in the middle)
+        spec["colorder"] = ["c0", "g0" if strat == "page_by" else "u0", "c1"]
+        spec["col_rel_width"] = [2, 1, 5]
+    if strat == "group_by":
         # value suppression, no headings: the group value text itself wraps to group_by_lines lines in its column
         spec["group_by"] = pb
         spec["group_by_lines"] = g.get("group_by_lines") or 1
-    elif strat == "subline":
+    if strat == "subline":
         spec["subline_by"] = pb  # L subline columns
     elif strat == "subline+page_by":
         spec["subline_by"] = [sl]
